@@ -164,13 +164,14 @@ func (e *Env) Key() string {
 }
 
 type TB struct {
-	notes    map[string]bool // scratch marks set by rule helpers during one traversal
-	W        *World
-	memo     map[string]*Term
-	inprog   map[string]bool
-	cells    map[*ssa.Alloc]*cellInfo
-	ReadOnly func(callee string) bool // external callees that do not write through pointer/slice args
-	curLoad  ssa.Instruction          // the load being resolved (for strong updates by dominating stores)
+	notes        map[string]bool // scratch marks set by rule helpers during one traversal
+	W            *World
+	memo         map[string]*Term
+	inprog       map[string]bool
+	cells        map[*ssa.Alloc]*cellInfo
+	ReadOnly     func(callee string) bool // external callees that do not write through pointer/slice args
+	padAppenders map[*ssa.Function]string // memo of appendPadHelper
+	curLoad      ssa.Instruction          // the load being resolved (for strong updates by dominating stores)
 	// WritesParam, when set (by NewEffects), tells whether a module callee may write through its i-th parameter.
 	WritesParam func(callee *ssa.Function, i int) bool
 }
@@ -601,6 +602,24 @@ func (tb *TB) callTerm(c *ssa.CallCommon, v ssa.Value, e *Env) *Term {
 		if name == "builtin.len" && len(args) == 1 {
 			return lenOf(args[0])
 		}
+		if name == "cmp.Or" && len(args) == 1 {
+			// the standard library's "first non-zero argument", over integers: Or(x, d) is x == 0 ? d : x
+			if sig, ok := c.Value.Type().Underlying().(*types.Signature); ok && sig.Results().Len() == 1 {
+				if _, _, isInt := intInfo(sig.Results().At(0).Type(), tb.W); isInt {
+					if els := varargsElems(tb, args[0]); len(els) >= 1 {
+						r := els[len(els)-1]
+						for i := len(els) - 2; i >= 0; i-- {
+							a, b := mk("const", "0"), els[i]
+							if a.String() > b.String() {
+								a, b = b, a
+							}
+							r = normIte(&Term{Op: "bin", Sym: "==", Args: []*Term{a, b}}, r, els[i])
+						}
+						return r
+					}
+				}
+			}
+		}
 		return &Term{Op: "call", Sym: name, Args: args, Val: v}
 	}
 	fnT := tb.Val(c.Value, e)
@@ -683,7 +702,7 @@ func DefaultReadOnly(name string) bool {
 		"(*sync.Pool).Put", "encoding/hex.EncodeToString", "(*encoding/base32.Encoding).EncodeToString",
 		"fmt.Sprintf", "fmt.Errorf", "fmt.Sprint", "fmt.Println", "fmt.Sprintln", "encoding/json.Marshal",
 		"(*net/url.URL).Query", "(*net/url.URL).String", "(net/url.Values).Get", "(net/url.Values).Encode",
-		"bytes.Equal", "bytes.Compare", "string", "builtin.len", "builtin.cap", "builtin.println", "builtin.print",
+		"bytes.Equal", "bytes.Compare", "string", "builtin.len", "builtin.cap", "builtin.println", "builtin.print", "cmp.Or", "cmp.Compare", "cmp.Less",
 		"(*github.com/valyala/fasthttp.RequestCtx).SetBody", "(*github.com/valyala/fasthttp.RequestCtx).Write":
 		return true
 	}
